@@ -458,6 +458,56 @@ func C12(tier string) int {
 		}
 		c.Close()
 	}
+	// A first attempt that fails while the participants are being prepared (the prepare message to one of them is lost; the
+	// client used another passphrase then), and the same name tried again: whatever the first attempt left behind on the
+	// participants it had reached, a reported success must mean what it always means.
+	retries := 0
+	{
+		ids := []uint64{1, 2, 3}
+		c, err := rig.NewCluster(rig.ClusterOpts{IDs: ids})
+		if err != nil {
+			run.HarnessErr = err
+			return run.Finish()
+		}
+		c.SuitableOrder = func(_ uint64, n uint32, allp map[uint64]*core.Endpoint) []*core.Endpoint {
+			return endpointsOf(allp, ids[:n])
+		}
+		for _, lost := range ids {
+			for _, initiator := range ids {
+				if lost == initiator {
+					continue
+				}
+				retries++
+				name := fmt.Sprintf("%s/retry-%d-%d", rig.DistWallet, lost, initiator)
+				c.Intercept = func(m *rig.Msg) rig.Action {
+					if m.Kind == "prepare" && m.To == lost {
+						return rig.Drop
+					}
+					return rig.Deliver
+				}
+				_, _, err1 := c.GenerateWith(initiator, name, []byte("the passphrase of the first attempt"), 2, 3)
+				c.Intercept = nil
+				if err1 == nil {
+					run.HarnessErr = fmt.Errorf("a generation whose prepare message to %d is lost reported success", lost)
+					c.Close()
+					return run.Finish()
+				}
+				pk2, parts2, err2 := c.Generate(initiator, name, 2, 3)
+				cells++
+				if err2 != nil {
+					refusals++
+					continue
+				}
+				successes++
+				for _, pr := range verifyGeneration(c, name, pk2, parts2, 2, 4) {
+					run.Violate(fmt.Sprintf("retry-after-failed-prepare:lost=%d:initiator=%d:%s", lost, initiator, firstWords(pr, 6)),
+						fmt.Sprintf("a generation of %s started on instance %d failed because the prepare message to %d was lost; the same name tried again (other passphrase) reported success with key %x, but %s", name, initiator, lost, pk2[:6], pr),
+						map[string]any{"check": "C12", "retry_after_failed_prepare": true, "lost": lost, "initiator": initiator})
+				}
+			}
+		}
+		c.Close()
+	}
 	// Instances with generation passphrases of their own and a client that supplies none: every participant must be able to
 	// use its share with what its own unlocker knows.
 	ownPass := 0
@@ -605,7 +655,7 @@ func C12(tier string) int {
 	run.Coverage = map[string]any{
 		"evaluations":                       cells,
 		"distinct_nontrivial":               len(perNT),
-		"rule":                              "clusters of n real instances wired through their real receiver handlers (messages marshalled and unmarshalled); after every successful generation each participant must at once sign with the new account addressed by name and addressed by its share public key, and list it; grid: n in 2..max, every t in 0..n+1, identifier sets (small, 10^6+i, 2^64-i, mixed), every initiator; for a valid t every order of participants returned by the peer selection and every commit completion order (all n! for small n, rotations+reversal above), and one tampered commit reply per participant and kind; oracle on success: every participant holds the account with the returned composite key, same vector/threshold/participants, share consistent with the vector, immediate signing and listing through its own services, every t-subset of partial signatures recovers a valid composite signature and no (t-1)-subset does; plus generations without a client passphrase on instances whose generation passphrases differ (each participant must use its share with what its own unlocker knows); plus 20 generations on four instances that talk over the real gRPC transport (real API servers, real sender), judged by the same oracle; plus generations in a cluster of 5 configured instances for every n < 5 and every t incl. thresholds above n and without majority (exactly n participants reported, exactly n holders; impossible thresholds refused); plus second generations of a name the participants already hold, started on a participant and on an instance outside the participant set: a reported success is judged by the same oracle, a refusal must leave the first account intact; distinct = (n,t) cells with at least one successful generation",
+		"rule":                              "clusters of n real instances wired through their real receiver handlers (messages marshalled and unmarshalled); after every successful generation each participant must at once sign with the new account addressed by name and addressed by its share public key, and list it; grid: n in 2..max, every t in 0..n+1, identifier sets (small, 10^6+i, 2^64-i, mixed), every initiator; for a valid t every order of participants returned by the peer selection and every commit completion order (all n! for small n, rotations+reversal above), and one tampered commit reply per participant and kind; oracle on success: every participant holds the account with the returned composite key, same vector/threshold/participants, share consistent with the vector, immediate signing and listing through its own services, every t-subset of partial signatures recovers a valid composite signature and no (t-1)-subset does; plus generations without a client passphrase on instances whose generation passphrases differ (each participant must use its share with what its own unlocker knows); plus 20 generations on four instances that talk over the real gRPC transport (real API servers, real sender), judged by the same oracle; plus generations in a cluster of 5 configured instances for every n < 5 and every t incl. thresholds above n and without majority (exactly n participants reported, exactly n holders; impossible thresholds refused); plus second generations of a name the participants already hold, started on a participant and on an instance outside the participant set: a reported success is judged by the same oracle, a refusal must leave the first account intact; plus retries of a name whose first attempt failed because the prepare message to one participant was lost (other passphrase then): a reported success is judged by the same oracle; distinct = (n,t) cells with at least one successful generation",
 		"samples":                           samples.List(),
 		"exhaustive":                        !capped && len(vacuous) == 0,
 		"max_n":                             maxN,
@@ -613,6 +663,7 @@ func C12(tier string) int {
 		"refused":                           refusals,
 		"successes_per_n_t":                 perNT,
 		"second_generations_of_a_held_name": reuse,
+		"retries_after_a_failed_prepare":    retries,
 		"generations_in_a_larger_cluster":   larger,
 		"generations_with_own_passphrases":  ownPass,
 		"generations_over_the_real_grpc_transport": overNet,
